@@ -76,7 +76,7 @@ def operands_untouched(step, ins, refs, verbose):
             bad = 1
             if verbose:
                 print("operand %d: labels changed by the call: qntot %s -> %s, qnidx %s -> %s" % (i, meta_was[2], meta_now[2], meta_was[1], meta_now[1]))
-        e = float(np.linalg.norm(dense(x) - refs[i]) / max(1.0, np.linalg.norm(refs[i])))
+        e = float(np.linalg.norm(dense(x) - refs[i]) / (np.linalg.norm(refs[i]) or 1.0))
         if not e <= 1e-9:
             bad = 1
             if verbose:
@@ -84,7 +84,7 @@ def operands_untouched(step, ins, refs, verbose):
         try:
             y = x.copy()
             y.ensure_left_canonical()
-            e = float(np.linalg.norm(dense(y) - refs[i]) / max(1.0, np.linalg.norm(refs[i])))
+            e = float(np.linalg.norm(dense(y) - refs[i]) / (np.linalg.norm(refs[i]) or 1.0))
             if not e <= 1e-9:
                 bad = 1
                 if verbose:
@@ -107,7 +107,7 @@ def replay(step, verbose=True):
         try:
             y = x.copy()
             y.ensure_left_canonical()
-            ok_in = float(np.linalg.norm(dense(y) - refs[i]) / max(1.0, np.linalg.norm(refs[i]))) <= 1e-9
+            ok_in = float(np.linalg.norm(dense(y) - refs[i]) / (np.linalg.norm(refs[i]) or 1.0)) <= 1e-9
         except Exception:
             ok_in = False
         if not ok_in:
@@ -133,13 +133,13 @@ def replay(step, verbose=True):
         exp = float(np.linalg.norm(refs[0] - refs[1]))
         if verbose:
             print("distance", got, "expected", exp)
-        return 1 if (operands_untouched(step, ins, refs, verbose) or not abs(got - exp) <= 1e-7 * max(1.0, exp)) else 0
+        return 1 if (operands_untouched(step, ins, refs, verbose) or not abs(got - exp) <= 1e-7 * float(np.linalg.norm(refs[0]) + np.linalg.norm(refs[1]))) else 0
     elif op in ("dot", "opdot", "dmdot"):
         got = ins[0].dot(ins[1])
         c0 = getattr(ins[0], "coeff", 1) if step["in"][0]["kind"] != "mpo" else 1
         c1 = getattr(ins[1], "coeff", 1) if step["in"][1]["kind"] != "mpo" else 1
         exp = np.sum((refs[0] / c0) * (refs[1] / c1))
-        ok = abs(got - exp) <= 1e-9 * max(1.0, abs(exp))
+        ok = abs(got - exp) <= 1e-9 * float(np.linalg.norm(refs[0] / c0) * np.linalg.norm(refs[1] / c1))
         if verbose:
             print("dot", got, "expected", exp)
         return 1 if (operands_untouched(step, ins, refs, verbose) or not ok) else 0
@@ -147,7 +147,9 @@ def replay(step, verbose=True):
         print("unknown op", op)
         return 0
     bad = operands_untouched(step, ins, refs, verbose)
-    scale_ = max(1.0, np.linalg.norm(ref))
+    # relative to the magnitudes of the operands (sums may cancel); no absolute floor
+    scale_ = float(sum(np.linalg.norm(x) for x in refs)) if op in ("add", "opadd", "dmadd") else float(np.linalg.norm(ref))
+    scale_ = scale_ or 1.0
     # a result with an all-zero site tensor (e.g. the operator annihilates the state) cannot be canonicalised by the
     # code (assert mt.any()): it is only compared as returned
     zero_site = not all(np.asarray(mt.array).any() for mt in r)
